@@ -113,6 +113,8 @@ namespace plan
       op.a = {static_cast<long>(r.below(8)), static_cast<long>(r.below(42))}; // (scope / 7) % 3 == 0: an object variable as scope, when there is one
       g_args(r, op, K);
     }
+    else if (name == "xorn")
+      op.a = {static_cast<long>(r.below(4)), static_cast<long>(r.below(1000))};
     else if (name == "spred")
       op.a = {static_cast<long>(r.below(4)), static_cast<long>(r.below(2))};
     else if (name == "cut")
@@ -312,7 +314,7 @@ namespace plan
     const bool timeline_focus = prop == "C19" || prop == "C04" || prop == "C05" || prop == "C06";
     w.add("real", 3), w.add("bool", 2), w.add("rel", timeline_focus ? 4 : 14);
     if (logic)
-      w.add("logic", 8), w.add("bassert", 3);
+      w.add("logic", 8), w.add("bassert", 3), w.add("xorn", prop == "C01" ? 3 : 1);
     if (objects)
       w.add("inst", 12), w.add("ovar", 8), w.add("oeq", 8), w.add("enumv", 3), w.add("eeq", 4);
     if (causal)
